@@ -146,6 +146,8 @@ def gen_fault(ch, label, enabled=FAULT_KINDS):
         ch._rec(label + ".frac", f["frac"])
         f["cut"] = ch.choice(label + ".cut", [0, 1, 0.5, -1, 512, 8192])
         f["errno"] = ch.choice(label + ".errno", ["ENOSPC", "EIO", "EACCES", "EDQUOT", "EROFS", "EMFILE"])
+        if kind == "IOERR" and ch.chance(label + ".persist", 0.35):
+            f["persist"] = True  # the condition stays (disk full / read-only): later writes of the same operation fail too
     else:
         f = {"where": "step", "kind": kind if kind not in ("IOERR", "CONVERT") else "INTERRUPT",
              "pick": ch.choice(label + ".spick", ["near_io", None]), "frac": round(ch.rng.random(), 3),
@@ -185,7 +187,7 @@ def gen_scenario(seed, focus="C20"):
     proj = Project(ch, focus)
     knobs = {
         "bufsize": ch.weighted("bufsize", [(8192, 5), (0, 1), (512, 1), (10 ** 9, 1)]),
-        "path_style": ch.weighted("path_style", [("abs", 6), ("tilde", 1), ("relative", 1)]),
+        "path_style": ch.weighted("path_style", [("abs", 6), ("tilde", 1), ("relative", 1), ("symlink_dir", 1), ("symlink_file", 1)]),
     }
     truth0 = ch.choice("truth0", KINDS)
     files, states = initial_states(proj, ch, truth0, focus)
